@@ -189,18 +189,26 @@ def load_corpus(pid):
     return out
 
 
+class DriverError(RuntimeError):
+    """The model driver itself failed: an infrastructure problem, never attributable to /repo."""
+
+
 def run_driver(lines):
     if not lines:
         return []
     data = ('\n'.join(lines) + '\n').encode()
-    p = subprocess.run([DRIVER], input=data, stdout=subprocess.PIPE, stderr=subprocess.PIPE)
+    try:
+        p = subprocess.run([os.environ.get('VERIF_DRIVER', DRIVER)], input=data, stdout=subprocess.PIPE,
+                           stderr=subprocess.PIPE)
+    except OSError as e:
+        raise DriverError('cannot run btcmodel: %s' % e)
     if p.returncode != 0:
-        raise RuntimeError('btcmodel exited %d: %s' % (p.returncode, p.stderr.decode()[-400:]))
+        raise DriverError('btcmodel exited %d: %s' % (p.returncode, p.stderr.decode()[-400:]))
     outs = p.stdout.decode().split('\n')
     if outs and outs[-1] == '':
         outs.pop()
     if len(outs) != len(lines):
-        raise RuntimeError('btcmodel answered %d lines for %d requests' % (len(outs), len(lines)))
+        raise DriverError('btcmodel answered %d lines for %d requests' % (len(outs), len(lines)))
     return outs
 
 
@@ -340,6 +348,8 @@ def _worker(args):
                 res['truncated'] = True
                 break
         flush()
+    except DriverError:
+        res['infra'] = traceback.format_exc(limit=4)
     except Exception:  # noqa: BLE001
         res['err'] = 'run: ' + traceback.format_exc(limit=6)
     finally:
@@ -463,6 +473,10 @@ def main_check(prop, modname, clsname, tier, seed):
     if setup_err is None:
         results = run_cases(prop, modname, clsname, run_tier, seed, budget)
 
+    infra = [r['infra'] for r in results if r.get('infra')]
+    if infra:
+        print('INFRA-ERROR: model driver failed: ' + infra[0][-600:])
+        return 2
     n = sum(r['n'] for r in results)
     keys = set()
     for r in results:
